@@ -283,6 +283,10 @@ func (sr *srcRenderer) simple(s any) string {
 			return sr.api + "YieldFrom(it)"
 		}
 		return "rt.YF(yield, it)"
+	case "capa":
+		return "caps = append(caps, func() int { return a })"
+	case "obscaps":
+		return fmt.Sprintf("for j, f := range caps {\n\tr.E(%d, j, f())\n}", num(m["id"]))
 	case "incq":
 		return "rt.Level += 10"
 	case "setp":
@@ -335,7 +339,7 @@ func (sr *srcRenderer) stmt(s any, ind string) string {
 		return ind + sr.simple(s) + "\n" + ind + "_ = " + n + "\n"
 	case "def2":
 		return ind + sr.simple(s) + "\n" + ind + "_, _ = a, b\n"
-	case "eff", "inc", "callf", "passign", "panic", "yield", "yfrom", "setcv", "sets", "setp", "incq", "effkv", "effkk", "effw", "mut", "effx", "pullit", "yfromit", "mk2", "ygen", "iife", "nestgen":
+	case "capa", "obscaps", "eff", "inc", "callf", "passign", "panic", "yield", "yfrom", "setcv", "sets", "setp", "incq", "effkv", "effkk", "effw", "mut", "effx", "pullit", "yfromit", "mk2", "ygen", "iife", "nestgen":
 		return indent(sr.simple(s), ind)
 	case "range":
 		return sr.rangeStmt(m, ind)
@@ -754,6 +758,9 @@ func (sr *srcRenderer) genFunc(name string, prog []any, trailing string) string 
 		if usesKind(prog, "mk2") {
 			prolog += "\tit2 := it\n\t_ = it2\n"
 		}
+	}
+	if usesKind(prog, "capa") || usesKind(prog, "obscaps") {
+		prolog += "\tvar caps []func() int\n"
 	}
 	if strings.Contains(canon(prog), `"k":"itn"`) {
 		// family nilit: the iterator variable holds no iterator
